@@ -380,3 +380,20 @@ pub proof fn lemma_br_sqrt_rem_iff(xs: int, rs: int, rm: int)
 {
     lemma_br_sq_succ(rs);
 }
+pub open spec fn wmul16_hi_spec(a: u16, b: u16) -> u16 { (((a as int) * (b as int)) / 0x1_0000) as u16 }
+
+/// n >= 2^30  ==>  leading_zeros(n) <= 1
+pub proof fn lemma_br_norm_lz32(n: u32)
+    requires n >= 0x4000_0000,
+    ensures vstd::std_specs::bits::u32_leading_zeros(n) <= 1,
+{
+    vstd::std_specs::bits::axiom_u32_leading_zeros(n);
+    let z = vstd::std_specs::bits::u32_leading_zeros(n);
+    if z >= 2 {
+        let zz = z as u32;
+        let up = (32 - z) as u32;
+        assert(sub(32u32, zz) == up);
+        assert(n >> up == 0);
+        assert(false) by (bit_vector) requires n >> up == 0, up <= 30, n >= 0x4000_0000u32;
+    }
+}
